@@ -73,3 +73,22 @@ M("intersection-needs-rows", "transform/setops.py", "    ahdr = next(ita)\n    n
   "    ahdr = next(ita)\n    next(itb)  # ignore b header\n    yield tuple(ahdr)\n    a = tuple(next(ita))\n    try:\n        b = tuple(next(itb))", ["C20"])
 M("melt-header-only-crash", "transform/reshape.py", "    for row in it:\n        k = getkey(row)",
   "    first = next(it)\n    for row in itertools.chain([first], it):\n        k = getkey(row)", ["C20"])
+
+CMP = "comparison.py"
+# ---- C04 ----------------------------------------------------------------------------------
+M("cmp-none-checks-swapped", CMP, "        if other is None:\n            return False\n        if obj is None:\n            return True",
+  "        if obj is None:\n            return True\n        if other is None:\n            return False", ["C04"])
+# (dropping bool from numeric_types is equivalent: bool is a subclass of int)
+M("cmp-decimal-not-numeric", "compat.py", "    numeric_types = bool, int, float, Decimal", "    numeric_types = bool, int, float", ["C04"], nth=1)
+M("cmp-typestr-native-names", CMP, "    if isinstance(x, text_type):\n        return 'unicode'", "    if isinstance(x, text_type):\n        return 'str'", ["C04"])
+M("cmp-gt-as-not-lt", CMP, "        return not (self < other or self == other)", "        return not (self < other)", ["C04"])
+M("cmp-no-recursive-wrap", CMP, "            obj = tuple(Comparable(o) for o in obj)", "            obj = tuple(obj)", ["C04"])
+M("cmp-text-before-bytes", CMP, "        if isinstance(obj, text_type) and isinstance(other, binary_type):\n            return False\n        if isinstance(obj, binary_type) and isinstance(other, text_type):\n            return True",
+  "        if isinstance(obj, text_type) and isinstance(other, binary_type):\n            return True\n        if isinstance(obj, binary_type) and isinstance(other, text_type):\n            return False", ["C04"])
+M("cmp-numbers-after-rest", CMP, "        if isinstance(obj, numeric_types) \\\n                and not isinstance(other, numeric_types):\n            return True\n        if not isinstance(obj, numeric_types) \\\n                and isinstance(other, numeric_types):\n            return False",
+  "        if isinstance(obj, numeric_types) \\\n                and not isinstance(other, numeric_types):\n            return False\n        if not isinstance(obj, numeric_types) \\\n                and isinstance(other, numeric_types):\n            return True", ["C04"])
+M("issorted-strict-ignored", S, "    elif strict:\n        op = operator.gt", "    elif strict:\n        op = operator.ge", ["C04"])
+M("selectle-uses-lt", "transform/selects.py", "lambda v: operator.le(Comparable(v), value)", "lambda v: operator.lt(Comparable(v), value)", ["C04", "C13"])
+M("rangeopenright-closed-right", "transform/selects.py", "lambda v: minv < Comparable(v) <= maxv", "lambda v: minv < Comparable(v) < maxv", ["C04", "C13"])
+M("itemgetter-missing-not-none", CMP, "    if len(args) == 1:\n        return partial(_get_default, item=args[0], default=None)",
+  "    if len(args) == 1:\n        return partial(_get_default, item=args[0], default='')", ["C04", "C05"])
